@@ -347,7 +347,7 @@ def smoothed_body(ctx, case):
 
 
 SUBS = [
-    Sub(name="tanh", body=tanh_body, strategy=lambda ctx: tanh_case(), quick=160, thorough=30000,
+    Sub(name="tanh", body=tanh_body, strategy=lambda ctx: tanh_case(), quick=400, thorough=30000,
         lanes=("f64", "f32"), f32_fraction=0.25, rule="TanhProjection invariants on a random 3-D array"),
     Sub(name="smoothed", body=smoothed_body, strategy=lambda ctx: smoothed_case(), quick=100, thorough=16000,
         lanes=("f64", "f32"), f32_fraction=0.25,
